@@ -281,14 +281,14 @@ pub fn run_sessions(sessions_path: &str, out_path: &str) {
 						let sha = |b: &[u8]| hex(ring::digest::digest(&ring::digest::SHA256, b).as_ref());
 						// the first observation is the original certificate; log it as the register's first write
 						let first = json!({"op": "Gen", "i": 0, "case": case, "be": crate::BACKEND, "args": {"regKey": reg_key, "kind": "session", "deterministicSig": false, "tid": 0, "pid": 0, "phase": "session-first"}, "out": "Ok", "err": "",
-							"obs": {"tbs": sha(&first_tbs), "full": sha(src.cert.der()), "paramsUnchanged": true, "sharedUnchanged": true, "len": src.cert.der().len()}});
+							"obs": {"tbs": sha(&first_tbs), "full": sha(src.cert.der()), "paramsUnchanged": true, "sharedUnchanged": true, "len": src.cert.der().len(), "sigOk": "na"}});
 						let mut first = first;
 						first["i"] = json!(out.n + 1);
 						out.raw(&first);
 						if let Outcome::Ok(c2) = r {
 							let tbs2 = project::embedded_tbs(c2.der()).unwrap_or_default();
 							out.event("Gen", &case, json!({"regKey": reg_key, "kind": "session", "deterministicSig": false, "tid": 0, "pid": 0, "phase": "session-repeat"}), "Ok", "",
-								json!({"tbs": sha(&tbs2), "full": sha(c2.der()), "paramsUnchanged": true, "sharedUnchanged": true, "len": c2.der().len()}));
+								json!({"tbs": sha(&tbs2), "full": sha(c2.der()), "paramsUnchanged": true, "sharedUnchanged": true, "len": c2.der().len(), "sigOk": "na"}));
 						}
 					}
 				},
